@@ -28,6 +28,7 @@ type Stats struct {
 	Chains, Blocks, EthTxs, Schedules, Crashes, RpcQueries, Events int
 	Classes                                                       map[string]int
 	Pairs                                                         map[string]bool // distinct (block shape, crash position) pairs with >= 1 Ethereum tx
+	ViewShapes                                                    map[string]bool // distinct block shapes with >= 1 admitted Ethereum tx seen through the RPC views
 	GoMismatch                                                    int
 	Stuck                                                         []string
 }
@@ -64,7 +65,7 @@ func shapeOf(ev trace.M, h int64) string {
 
 // Drive generates chains and runs crash schedules and RPC view queries on each; events go to out.
 func Drive(out *trace.W, o DriveOpts) Stats {
-	st := Stats{Classes: map[string]int{}, Pairs: map[string]bool{}}
+	st := Stats{Classes: map[string]int{}, Pairs: map[string]bool{}, ViewShapes: map[string]bool{}}
 	for ci := 0; ci < o.Chains; ci++ {
 		tbl := prog.NewTable()
 		tid := fmt.Sprintf("c%d_%d", o.Seed, ci)
@@ -124,6 +125,15 @@ func Drive(out *trace.W, o DriveOpts) Stats {
 			s0 := 2 + rr.Int63n(r.Last-2)
 			scheds = append(scheds, Sched{ID: fmt.Sprintf("%s/late%d", tid, s0), Start: s0, Tip: r.Last, Die: []int{0}, Mode: "service"})
 		}
+		// the node prunes its block store while the service is down: first catch up to t1, restart with blocks < e gone
+		if r.Last >= 5 {
+			t1 := 2 + rr.Int63n(r.Last-4)          // 2 .. Last-3
+			e := t1 + 1 + rr.Int63n(r.Last-t1) // t1+1 .. Last (t1+1: pruned exactly up to the indexed point)
+			if e > r.Last {
+				e = r.Last
+			}
+			scheds = append(scheds, Sched{ID: fmt.Sprintf("%s/pruned%d-%d", tid, t1, e), Start: 1, Tip: r.Last, Tip1: t1, Earliest: e, Die: []int{0, 0}, Mode: "service"})
+		}
 		// direct drive of IndexBlock: every block twice; backwards; shuffled with repetitions
 		var fwd2, bwd, shuf []int64
 		for h := int64(1); h <= r.Last; h++ {
@@ -155,8 +165,8 @@ func Drive(out *trace.W, o DriveOpts) Stats {
 				out.Emit(ev)
 			}
 			same := reflect.DeepEqual(res.Final, base.Final)
-			if s.Start != 1 && s.Mode == "service" {
-				same = true // a later start indexes fewer blocks by definition; judged by the specification only
+			if (s.Start != 1 || s.Earliest > 0) && s.Mode == "service" {
+				same = true // a later start / a pruned store indexes fewer blocks by definition; judged by the specification only
 			}
 			if s.Mode == "direct" {
 				same = reflect.DeepEqual(res.Final, base.Final)
@@ -186,6 +196,18 @@ func Drive(out *trace.W, o DriveOpts) Stats {
 			}
 		}
 		if o.Views {
+			for _, b := range ce["blocks"].([]interface{}) {
+				adm := false
+				for _, t := range b.(trace.M)["txs"].([]interface{}) {
+					switch t.(trace.M)["cls"].(string) {
+					case "ok", "vmerr", "core", "panic", "blockgas":
+						adm = true
+					}
+				}
+				if adm {
+					st.ViewShapes[shapeOf(ce, b.(trace.M)["h"].(int64))] = true
+				}
+			}
 			for _, indexed := range []bool{true, false} {
 				v := NewViews(r, n, indexed)
 				for _, ev := range v.QueryAll() {
